@@ -169,3 +169,173 @@ def guard_flow(B, acquire_bb):
                 state_in[s] = new
                 work.append(s)
     return state_in, before_term
+
+
+# ------------------------------------------------------------ Display texts ----
+
+def decode_fmt_template(bs):
+    """Decode this compiler's format-template byte string into [('lit', text) | ('hole',) | ('opaque',)].
+    Observed encoding (calibrated by fixtures/positive: "{}{}" == c0 c0 00): a byte < 0x80 is the
+    length of a literal piece that follows, 0xc0 is a default placeholder, 0x00 terminates.  Anything
+    else is reported as opaque (a placeholder with formatting options, followed by option bytes)."""
+    out = []
+    i = 0
+    n = len(bs)
+    while i < n:
+        b = bs[i]
+        if b == 0:
+            break
+        if b < 0x80:
+            out.append(('lit', bytes(bs[i + 1:i + 1 + b]).decode('utf-8', 'replace')))
+            i += 1 + b
+        elif b == 0xc0:
+            out.append(('hole',))
+            i += 1
+        else:
+            out.append(('opaque',))
+            # options follow; we cannot know their length: stop decoding literal text here
+            rest = bytes(bs[i + 1:])
+            # salvage printable runs as literal hints
+            out.append(('rest', rest.decode('latin-1')))
+            break
+    return out
+
+
+def display_table(P, adt_path):
+    """variant name -> list of pieces of its Display text, read from `<ADT as Display>::fmt`."""
+    from .core import exclusive_blocks
+    B = P.B('<%s as core::fmt::Display>::fmt' % adt_path)
+    if B is None:
+        return None
+    adt = P.F.adts.get(adt_path)
+    sw = None
+    for i in sorted(B.live_blocks()):
+        sd = B.switch_on_discr(i)
+        if sd and adt_path in sd[1]:
+            sw = (i, sd)
+            break
+    if sw is None:
+        return None
+    i, (pl, ty, cases, els) = sw
+    starts = sorted({b for _, b in cases})
+    excl = exclusive_blocks(B, starts)
+    table = {}
+    for v, b in cases:
+        vname = adt['variants'][v]['n']
+        pieces = None
+        for bb in sorted(excl[b]):
+            t = B.blocks[bb]['t']
+            if t['k'] != 'call':
+                continue
+            g, r = callee_of(t)
+            if g and g.endswith('Formatter::<\'a>::write_str'):
+                o = B.origin(t['args'][1])
+                if o[0] == 'const' and isinstance(o[1], str):
+                    pieces = [('lit', o[1])]
+            if g and g.startswith('core::fmt::Arguments') and g.endswith('::new'):
+                cur = t['args'][0]
+                bs = None
+                for _ in range(6):
+                    if cur['k'] == 'c':
+                        bs = cur.get('bytes')
+                        break
+                    d = B.single_def(cur['pl']['l'])
+                    if d is None or d[0] != 's':
+                        break
+                    rv = d[3]['rv']
+                    if rv['k'] in ('use', 'cast'):
+                        cur = rv['op']
+                    elif rv['k'] == 'ref':
+                        cur = {'k': 'cp', 'pl': rv['pl']}
+                    else:
+                        break
+                if bs is not None:
+                    pieces = decode_fmt_template(bs)
+            if g and g.startswith('core::fmt::Arguments') and g.endswith('::from_str'):
+                o = B.origin(t['args'][0])
+                if o[0] == 'const' and isinstance(o[1], str):
+                    pieces = [('lit', o[1])]
+        table[vname] = pieces
+    return table
+
+
+def text_may_contain(pieces, needle):
+    """'yes' when a literal piece contains needle, 'maybe' when the text is (almost) all holes/opaque,
+    'no' otherwise (holes are assumed not to contain the needle when a literal prefix identifies the variant)."""
+    if pieces is None:
+        return 'maybe'
+    lits = [p[1] for p in pieces if p[0] == 'lit']
+    if any(needle in l for l in lits):
+        return 'yes'
+    if any(p[0] == 'rest' and needle in p[1] for p in pieces):
+        return 'yes'
+    if not lits or all(len(l.strip()) == 0 for l in lits):
+        return 'maybe'
+    return 'no'
+
+
+# -------------------------------------------------------- produced error set ----
+
+def bodies_of_fn(P, fn_path):
+    """the body of a function and of every closure / async block nested in it"""
+    out = []
+    for p, b in P.F.bodies.items():
+        if (p == fn_path or p.startswith(fn_path + '::{')) and b['kind'] in ('Fn', 'AssocFn', 'Closure', 'SyntheticCoroutineBody', 'InlineConst'):
+            out.append(P.B(p))
+    return out
+
+
+def from_impl_variant(P, err_adt, src_ty):
+    """variant constructed by `impl From<src_ty> for err_adt`"""
+    for imp in P.F.impls:
+        tr = imp.get('trait') or ''
+        if imp['self'] == err_adt and tr.startswith('core::convert::From<') and tr[len('core::convert::From<'):-1] == src_ty:
+            for it in imp['items']:
+                B = P.B(it)
+                if B is None:
+                    continue
+                for bb, j, st in B.stmts():
+                    if st['k'] == '=' and st['rv']['k'] == 'agg' and st['rv'].get('adt') == err_adt:
+                        return st['rv']['var']
+    return None
+
+
+def produced_errors(P, fn_path, err_adt, _seen=None, depth=0):
+    """Over-approximate set of err_adt variants a function can return:
+    variants constructed in it (and its closures), `?`-conversions From<E>, and, recursively,
+    the sets of workspace callees whose declared output mentions err_adt."""
+    import re
+    if _seen is None:
+        _seen = {}
+    if fn_path in _seen:
+        return _seen[fn_path]
+    res = {}
+    _seen[fn_path] = res
+    if depth > 8:
+        return res
+    for B in bodies_of_fn(P, fn_path):
+        for bb, j, st in B.stmts():
+            if st['k'] == '=' and st['rv']['k'] == 'agg' and st['rv'].get('adt') == err_adt:
+                res.setdefault(st['rv']['var'], 'constructed in %s' % B.path)
+        for bb, t in B.calls():
+            g, r = callee_of(t)
+            if g == 'core::ops::try_trait::FromResidual::from_residual' and t.get('aty'):
+                m = re.match(r'core::result::Result<core::convert::Infallible, (.*)>$', t['aty'][0])
+                if m and m.group(1) != err_adt:
+                    v = from_impl_variant(P, err_adt, m.group(1))
+                    if v:
+                        res.setdefault(v, '`?` conversion From<%s>' % m.group(1))
+                    else:
+                        res.setdefault('?From<%s>' % m.group(1), 'unresolved conversion')
+            for n in (g, r):
+                if not n:
+                    continue
+                sig = P.F.fns.get(n)
+                if sig and err_adt in sig['output'] and n != fn_path:
+                    for v, how in produced_errors(P, n, err_adt, _seen, depth + 1).items():
+                        res.setdefault(v, 'from callee %s (%s)' % (n.split('::')[-1], how.split(' (')[0]))
+            # fn items used as map_err(Error::Io)
+            for a in t['args']:
+                if a['k'] == 'c' and 'fn' in a and a['fn'].startswith(err_adt + '::'):
+                    res.setdefault(a['fn'].rsplit('::', 1)[1], 'constructor passed as function')
+    return res
